@@ -21,10 +21,10 @@ CHECKS = {
  "C05": ("grid enumeration of control-flow encodings x addresses x flags x operands (incl. landmark targets) + generated call/return programs on the Python and Rust executors with generated stack placement + long-lived-executor histories over rewritten code; static InstructionInfo vs executed PC, inverse-pair law",
          "Exploration: all branch/call/return encodings over page-boundary and interior addresses and all flag values; non-branch encodings sampled for the fall-through direction; call..ret and IR..RETI pairs with generated stack-neutral bodies.",
          "Python core only (the metadata is Python); execution through the repository's own emulator."),
- "C06": ("differential testing Python emulator vs Rust LLAMA executor on generated (encoding, state) pairs over an identical hash-filled bus, plus lockstep programs",
+ "C06": ("differential testing Python emulator vs Rust LLAMA executor on generated (encoding, state) pairs over an identical hash-filled bus, plus lockstep programs; pools of live cores (all Python emulators of a pool constructed before any of them steps, generated step order, opcode under test on a core that is not the newest), flag-context lockstep programs (whole-F writes POPU/POPS F, RETI, IR..RETI and reads interleaved with flag-changing instructions, popped bytes biased to repeat the previous whole-F write), low-power differences reported as a verdict of their own",
          "Exploration: every decoder-accepted structural head (thorough) / every (prefix, opcode) pair (quick) is executed once on both cores from a generated state and compared field by field (registers, flags, PC, length, power state, final memory); generated straight-line programs are run in lockstep.",
          RUST_NOTE + " Each core is paired with the address canonicalisation of its own project memory model; TEMP registers and call bookkeeping are not compared."),
- "C07": ("metamorphic testing: history-then-probe vs fresh core, N+M splits, twin emulators, per core; machine-level state transfer to a fresh machine (Rust and Python), converging histories, assembler history vs pristine process",
+ "C07": ("metamorphic testing: history-then-probe vs fresh core, N+M splits, twin emulators, per core; machine-level state transfer to a fresh machine (Rust and Python), converging histories, assembler history vs pristine process; entry-history: a fresh CoreRuntime driven through CoreRuntime::step or AsyncRuntimeRunner::run_instructions (generated call partition, slice, runner reuse) after generated, already finished uses of the crate's async machinery on the same thread (block_on of display/sleep/timer futures with generated event ids, dropped AsyncDrivers with leftovers, earlier runners) compared with the same calls on a pristine thread",
          "Exploration: generated execution histories (instructions, TEMP junk, call bookkeeping) followed by a probe instruction from a re-imposed architectural state must equal a fresh core's result; all split points of generated runs; twin-trace equality.",
          RUST_NOTE),
  "C08": ("Hypothesis stateful/sequence generation of register writes/reads/snapshot round trips against a reference register-file model; Python<->Rust differential; lifecycle op (reset of the register file in use, model back to fresh), snapshots built from named values and the snapshot dictionary compared name by name with reads (distinct non-zero TEMPs), complete whole/alias/whole write-order sweep over BA, I, F",
